@@ -495,7 +495,7 @@ def run(ctx: Context) -> None:
             # the same question asked of the defaulting prologue as a whole: what is the linear dimension for each combination
             # of `axis` / `linear_dimension` being given or not
             from .common import none_case_values
-            cases = none_case_values(fi, ['axis', 'linear_dimension'], 'linear_dimension', call)
+            cases = none_case_values(fi, ['axis', 'linear_dimension'], ld.id if isinstance(ld, ast.Name) else 'linear_dimension', call)
             if cases is not None:
                 want = {(True, True): f"{da}.dims[-1]", (True, False): 'linear_dimension', (False, True): f"{da}.dims[axis]", (False, False): f"{da}.dims[axis]"}
                 by_cases = cases == want
